@@ -26,9 +26,27 @@ def gen_job(r, jid, cfg):
     if pre and r.random() < 0.4:
         pre.append({"op": "read", "t": "a", "ckpt": True})
     nthreads = r.choice([2, 2, 3, 3, 4])
-    shape = r.choice(["readers", "mixed", "mixed", "prodcons", "batchers"])
+    shape = r.choice(["readers", "mixed", "mixed", "prodcons", "batchers", "rot2", "breaders"])
     threads = []
-    for t in range(nthreads):
+    if shape == "rot2":
+        # a batch reader racing with a producer that seals two blocks in a row
+        pre = [{"op": "append", "t": "a", "id": nid(), "size": r.choice([100, 300, 600])}]
+        prod = ([{"op": "batch", "t": "a", "es": [[nid(), 1500], [nid(), 1500], [nid(), r.choice([900, 1500])]]}] if r.random() < 0.5
+                else [{"op": "append", "t": "a", "id": nid(), "size": 1500}, {"op": "append", "t": "a", "id": nid(), "size": 1500},
+                      {"op": "append", "t": "a", "id": nid(), "size": 700}])
+        threads = [[{"op": "bread", "t": "a", "budget": -1}, {"op": "bread", "t": "a", "budget": -1}], prod]
+        if r.random() < 0.4:
+            threads.append([{"op": "read", "t": "a"}])
+        nthreads = len(threads)
+    elif shape == "breaders":
+        # several consuming batch readers over preloaded data (and maybe a producer)
+        pre = [{"op": "append", "t": "a", "id": nid(), "size": r.choice([300, 600, 700, 900])} for _ in range(r.randint(4, 7))]
+        threads = [[{"op": "bread", "t": "a", "budget": r.choice([-1, 700, 1500, 2000])} for _ in range(r.choice([1, 2]))]
+                   for _ in range(r.choice([2, 3]))]
+        if r.random() < 0.5:
+            threads.append([{"op": "append", "t": "a", "id": nid(), "size": r.choice([600, 1500])}])
+        nthreads = len(threads)
+    for t in range(nthreads if shape not in ("rot2", "breaders") else 0):
         ops = []
         for _ in range(r.choice([1, 2, 2, 3])):
             if shape == "readers":
@@ -53,8 +71,15 @@ def gen_job(r, jid, cfg):
     c = dict(cfg)
     c["topics"] = ["a"]
     c["proj"] = False
+    if r.random() < 0.35 and len(threads) >= 2:
+        # "park and run": thread A is stopped at its k-th gate while thread B runs a whole operation
+        # (or two) without interruption - the shape of every check-then-act window
+        a_, b_ = r.sample(range(len(threads)), 2)
+        sched = [a_] * r.choice([1, 2, 3, 4]) + [b_] * r.choice([8, 12, 20]) + [a_] * 8
+        return {"id": jid, "cfg": c, "pre": pre, "threads": threads, "schedule": sched, "seed": r.getrandbits(32), "pct": False}
     return {"id": jid, "cfg": c, "pre": pre, "threads": threads,
-            "schedule": [r.randrange(nthreads) for _ in range(r.choice([0, 10, 40]))], "seed": r.getrandbits(32)}
+            "schedule": [r.randrange(nthreads) for _ in range(r.choice([0, 0, 10, 40]))], "seed": r.getrandbits(32),
+            "pct": r.random() < 0.5}
 
 
 def run_jobs(jobs, tag):
